@@ -221,6 +221,7 @@ def cases(tier, seed):
         [fn("skip", [], [["==", H, ["t", "k", "str"]]]), ["=", ["v", "n", ["onmatch"]], fn("count_lines")], fn("yes")],
         [["h", "1"], fn("not", [], [fn("empty", [], [H])]), ["->", fn("last", ["nocontrib"]), ["=", ["v", "t"], fn("total_lines")]]],
         [fn("tally", [], [H]), ["==", ["h", "1"], ["t", "1", "int"]]],
+        [fn("count", [], [["==", H, ["t", "k", "str"]]]), fn("every", [], [H, ["t", "2", "int"]]), fn("yes")],  # unnamed bookkeeping: generated variable names
         [["==", fn("lower", [], [H]), ["t", "k", "str"]], ["=", ["v", "x", ["k"]], ["h", "1"]], fn("stop", [], [["==", ["h", "1"], ["t", "2", "int"]]])],
     ]
     for p in progs:
@@ -317,7 +318,7 @@ def run_case(case):
                 bad(f"{tag}component tree != source", got, exp)
         if path is not None:
             o = run.run_csvpath(f"${path}[*]{text}")
-            rec = {k: o[k] for k in ("lines", "vars", "printouts", "scan_count", "match_count", "is_valid", "errors", "exc")}
+            rec = {k: o[k] for k in ("lines", "vars", "priv", "printouts", "scan_count", "match_count", "is_valid", "errors", "exc")}  # priv: the generated names of unnamed bookkeeping variables
             if base_obs is None:
                 base_obs = rec
                 for pre, post in (("~ about: nothing ~ ", ""), ("~ prices are in $ (USD) ~ ", ""), ("", " ~ under $4.50 ~")):
